@@ -7,3 +7,5 @@ def check(rep, tier):
     diffops.run_nary(rep, tier)
     diffops.run_ops(rep, tier)
     core_make.run(rep, tier)
+    from contracts import programs_exact
+    programs_exact.run_ops(rep)
